@@ -130,7 +130,11 @@ def add_unit(mode):
         st, f, cache, loaded = file_store(h, mode)
         old_len = to_z3(f.length)
         old_rows = f.rows
-        t = TrajRec(h.int('new_traj_id'), label='new')
+        # the same field sets may have been added to the new trajectory in another order than to the ones already there:
+        # its data-dictionary hash then differs although it has the same data fields
+        other_order = h.choice(2) == 1
+        h.ctx.named['field_sets_added_in_another_order'] = z3.BoolVal(other_order)
+        t = TrajRec(h.int('new_traj_id'), label='new', schema=(1 if other_order else 0))
         h.ctx.named['mode'] = z3.StringVal(mode)
 
         def write_data(I_, fi, a, k):
@@ -327,6 +331,34 @@ def replay(payload):
                 pass
             except Exception as e:   # noqa
                 problems.append(f'store[len] raised {type(e).__name__}')
+        # the same field sets added in another order: still the same data fields
+        from AEIC.storage import Dimension as _D, Dimensions as _Ds, FieldMetadata as _FM, FieldSet as _FS
+        for nm in ('c07_ord_x', 'c07_ord_y'):
+            if not _FS.known(nm):
+                _FS(nm, **{nm + '_v': _FM(dimensions=_Ds(_D.TRAJECTORY), description='', units='')})
+
+        def ordered(i, order):
+            t = _mk(i)
+            for nm in order:
+                t.add_fields(_FS.from_registry(nm))
+                setattr(t, nm + '_v', float(i))
+            return t
+        for in_mem in (True, False):
+            TrajectoryStore.active_in_thread = None
+            ts = TrajectoryStore.create() if in_mem else TrajectoryStore.create(base_file=os.path.join(tmp, 'order.nc'))
+            try:
+                ts.add(ordered(0, ['c07_ord_x', 'c07_ord_y']))
+                try:
+                    ts.add(ordered(1, ['c07_ord_y', 'c07_ord_x']))
+                    if len(ts) != 2 or ts[1].c07_ord_x_v != 1.0:
+                        problems.append('trajectory with its field sets added in another order: not stored as the second trajectory')
+                except Exception as e:   # noqa
+                    problems.append(f'{"in-memory" if in_mem else "file"} store: a trajectory with the same field sets added in another order is refused: {type(e).__name__}: {e}')
+            finally:
+                try:
+                    ts.close()
+                except Exception:   # noqa
+                    pass
         # a cache smaller than one trajectory: 12000 points (about 1.3 MiB) read through a 1 MiB cache
         if m.get('cache_smaller_than_a_trajectory', True):
             TrajectoryStore.active_in_thread = None
